@@ -3,6 +3,7 @@
 Control flow is concrete per path; scalar data may be z3 terms.  A symbolic branch asks z3 which
 successors are feasible and explores them depth-first by re-execution with a decision prefix.
 """
+import os
 import re
 import sys
 import time
@@ -92,6 +93,7 @@ class Path:
     """per-path exploration state"""
     def __init__(self, prefix):
         self.solver = z3.Solver()
+        self.solver.set('timeout', int(os.environ.get('VERIF_SOLVER_TIMEOUT_MS', '120000')))
         self.decisions = list(prefix)
         self.pos = 0
         self.events = []
@@ -228,8 +230,11 @@ class Engine:
         self.stats['solver_s'] += dt
         if dt > self.stats['max_query_s']:
             self.stats['max_query_s'] = dt
+        if dt > 5 and os.environ.get('VERIF_DEBUG_SLOWQ'):
+            import sys as _s
+            print('SLOW QUERY %.1fs extra=%s\nassertions=%s\nevents=%s' % (dt, str(extra)[:2000], str(p.solver.assertions())[:4000], [e[0] for e in p.events][-60:]), file=_s.stderr, flush=True)
         if r == z3.unknown:
-            raise Unsupported('solver returned unknown')
+            raise Unsupported('solver returned unknown (%s) after %.1fs' % (p.solver.reason_unknown(), dt))
         return r == z3.sat
 
     def model(self, extra=None):
